@@ -107,3 +107,32 @@ package config
 //@   ensures @unsubscribed !has(c.subscribed, svcName)
 //@   ensures @queued-exactly-when-it-was-subscribed (!old(has(c.subscribed, svcName)) ==> sentcount(c.unsubCh) == old(sentcount(c.unsubCh))) && (old(has(c.subscribed, svcName)) ==> sentcount(c.unsubCh) == old(sentcount(c.unsubCh)) + 1 && sentat(c.unsubCh, old(sentcount(c.unsubCh))) == svcName)
 //@   ensures @other-subscriptions-untouched forall n string :: n != svcName ==> has(c.subscribed, n) == old(has(c.subscribed, n))
+
+//@ func (*svcDiscoveryClient).cleanSubChLocked
+//@   prop C16
+//@   requires c != nil
+//@   modifies received(c.subCh)
+
+//@ func (*svcDiscoveryClient).cleanUnsubChLocked
+//@   prop C16
+//@   requires c != nil
+//@   modifies received(c.unsubCh)
+
+//@ func (*svcDiscoveryClient).resubscribe
+//@   prop C16
+//@   requires c != nil && c.subscribed != nil
+//@   modifies received(c.subCh), received(c.unsubCh), streamsends, fwdsub, fwdunsub
+//@   callpre Send @the-whole-subscribed-set-once-each len(arg1) == len(c.subscribed) && len(arg1) > 0 && len(arg2) == 0 && (forall k int :: 0 <= k && k < len(arg1) ==> has(c.subscribed, arg1[k])) && (forall a int, b int :: 0 <= a && a < b && b < len(arg1) ==> arg1[a] != arg1[b]) && streamsends == old(streamsends)
+//@   ensures @one-request-unless-nothing-is-subscribed streamsends == old(streamsends) + ite(len(c.subscribed) > 0, 1, 0)
+//@   loop 0 invariant (cap(svcNames) == 0 || fresh(svcNames)) && len(svcNames) == iterated0 && streamsends == old(streamsends)
+//@   loop 0 invariant forall k int :: 0 <= k && k < len(svcNames) ==> has(c.subscribed, svcNames[k]) && has(visited0, svcNames[k])
+//@   loop 0 invariant forall a int, b int :: 0 <= a && a < b && b < len(svcNames) ==> svcNames[a] != svcNames[b]
+
+//@ func (*svcDiscoveryClient).loopSend
+//@   prop C16
+//@   requires c != nil && c.subCh != nil && c.unsubCh != nil && c.subCh != c.unsubCh && stream != nil
+//@   callpre Send @forwards-exactly-the-names-taken-from-the-queues-in-order len(arg1) + len(arg2) >= 1 && (forall k int :: 0 <= k && k < len(arg1) ==> arg1[k] == sentat(c.subCh, recvcount(c.subCh) - len(arg1) + k)) && (forall k int :: 0 <= k && k < len(arg2) ==> arg2[k] == sentat(c.unsubCh, recvcount(c.unsubCh) - len(arg2) + k)) && fwdsub - old(fwdsub) == recvcount(c.subCh) - old(recvcount(c.subCh)) - len(arg1) && fwdunsub - old(fwdunsub) == recvcount(c.unsubCh) - old(recvcount(c.unsubCh)) - len(arg2)
+//@   loop 0 invariant fwdsub - old(fwdsub) == recvcount(c.subCh) - old(recvcount(c.subCh)) && fwdunsub - old(fwdunsub) == recvcount(c.unsubCh) - old(recvcount(c.unsubCh))
+//@   loop 1 invariant fwdsub - old(fwdsub) == recvcount(c.subCh) - old(recvcount(c.subCh)) - len(subscribed) && fwdunsub - old(fwdunsub) == recvcount(c.unsubCh) - old(recvcount(c.unsubCh)) - len(unsubscribed) && len(subscribed) + len(unsubscribed) >= 1
+//@   loop 1 invariant (forall k int :: 0 <= k && k < len(subscribed) ==> subscribed[k] == sentat(c.subCh, recvcount(c.subCh) - len(subscribed) + k)) && (forall k int :: 0 <= k && k < len(unsubscribed) ==> unsubscribed[k] == sentat(c.unsubCh, recvcount(c.unsubCh) - len(unsubscribed) + k))
+//@   loop 1 invariant (cap(subscribed) == 0 || fresh(subscribed)) && (cap(unsubscribed) == 0 || fresh(unsubscribed)) && disjoint(subscribed, unsubscribed)
